@@ -10,7 +10,13 @@ RULE = ("grammar-generated histories (10-40 ops: inbound lines of every handler 
         "and at least one was rejected")
 ASSUMPTIONS = ["a dying poll thread is represented by an exception escaping Tasks.run_job / transport.send",
                "float(), awesomeversion are oracles fed with the library's real verdicts"]
-THEOREMS_DOC = {}
+THEOREMS_DOC = {
+    "C01_decode_only_valueerror": "decode is total into option (ValueError is the only failure)",
+    "C01_rejected_is_noop": "a line that does not decode or validate leaves the whole state unchanged, no reply, no event",
+    "C01_pump_total": "for all 5 configurations, oracles, histories of lines/pumps/controller calls, both flavours: logic never raises on any next or queued line",
+    "C01_reachable_invariant": "the invariant (desired values validated, OTA words in range, node ids = keys) holds in every reachable state",
+    "C01_liveness_probe": "a config request from a node that is not held back is answered with M/I",
+}
 SCOPE = ["R", "S", "jobs"]
 
 
